@@ -1286,6 +1286,8 @@ pub fn replay<S: System>(sys: &S, steps: &[String]) -> Result<Vec<(String, Strin
 
 /// Drive a finite family of deterministic histories through the same step / oracle pipeline as
 /// the search (no state merging: every history is executed once, every prefix state is checked).
+pub static INJECT_WINDOW: std::sync::OnceLock<(usize, usize)> = std::sync::OnceLock::new();
+
 pub fn run_histories<S: System>(sys: &S, hists: &[Vec<String>], threads: usize, inject: bool, sparse: bool) -> Report {
     let t0 = Instant::now();
     let wd = spawn_watchdog(20);
@@ -1419,7 +1421,10 @@ pub fn run_histories<S: System>(sys: &S, hists: &[Vec<String>], threads: usize, 
     let mut work = inj_work.into_inner().unwrap();
     work.sort_by(|a, b| a.0.iter().map(|s| s.enc()).cmp(b.0.iter().map(|s| s.enc())));
     if !work.is_empty() && outs.iter().all(|o| o.err.is_none()) {
-        let items: Vec<(usize, usize)> = work.iter().enumerate().flat_map(|(h, (st, _))| (0..st.len()).map(move |k| (h, k))).collect();
+        // optional window: only steps lo..hi of each history get the fault enumeration (a long history whose
+        // interesting steps are known, e.g. the inserts that make a list grow past 32 entries)
+        let (wlo, whi) = INJECT_WINDOW.get().copied().unwrap_or((0, usize::MAX));
+        let items: Vec<(usize, usize)> = work.iter().enumerate().flat_map(|(h, (st, _))| (0..st.len()).filter(move |k| *k >= wlo && *k < whi).map(move |k| (h, k))).collect();
         let next = AtomicUsize::new(0);
         let failed: Vec<AtomicBool> = work.iter().map(|_| AtomicBool::new(false)).collect();
         let outs2: Vec<Out> = std::thread::scope(|sc| {
